@@ -248,9 +248,64 @@ def run(ctx):
         return (n, adj, exp[0], results[0][1].rc)
 
     res = pmap(one, list(enumerate(graphs)))
+    shared_namespaces(ctx, home, graphs, quick)
     for x in res[5:9] + res[-3:]:
         ctx.sample({"packages": x[0], "imports": {str(k): v for k, v in x[1].items()}, "expected": x[2], "exit": x[3]})
     special(ctx, home)
+
+
+def shared_namespaces(ctx, home, graphs, quick):
+    """the same graphs with one namespace claimed by two of the directories: for every loop-free graph and every pair of packages (a, b), a and b both
+    call themselves `Dup`. Both reachable from the root => an error, wherever the two sit relative to each other (siblings, one below the other, the root
+    itself and a package below it) and in whatever order the imports are listed; only one of them reachable => the graph loads as before."""
+    jobs = []
+    for gi, (n, adj) in enumerate(graphs):
+        if n < 2 or has_reachable_cycle(adj) or any(u in vs for u, vs in adj.items()):
+            continue
+        if quick and n == 4 and gi % 5:
+            continue
+        for a in range(n):
+            for b in range(a + 1, n):
+                jobs.append((gi, n, adj, a, b))
+
+    def one(job):
+        gi, n, adj, a, b = job
+        rset = reach(adj)
+        both = a in rset and b in rset
+        nodes = sorted(adj)
+        orders = [{u: list(adj[u]) for u in nodes}, {u: list(reversed(adj[u])) for u in nodes}]
+        if orders[0] == orders[1]:
+            orders = orders[:1]
+        ns_of = lambda i: "Dup" if i in (a, b) else "P%d" % i
+        for oi, ordered in enumerate(orders):
+            base = os.path.join(ctx.workdir, "cases", "dup%d_%d_%d_%d" % (gi, a, b, oi))
+            shutil.rmtree(base, ignore_errors=True)
+            pkgdir = write_graph(base, n, ordered, ns_of=ns_of)
+            if both or True:
+                # the records of the two claimants are both called Dup.R<i>; a root that uses both refers to each by its own record name
+                pass
+            p, parsed, dump = observe(pkgdir, home)
+            ctx.ev()
+            ctx.case(("shared-namespace", n, tuple(sorted((u, tuple(v)) for u, v in ordered.items())), a, b))
+            ctx.count("shared-namespace.%s" % ("both-reachable" if both else "one-reachable"))
+            desc = "graph n=%d %s order %s with packages %d and %d both claiming namespace Dup" % (n, {u: v for u, v in sorted(adj.items())}, ordered, a, b)
+            case = {"case_dir": base, "graph": adj, "order": ordered, "dup": [a, b], "stderr": cli.clean(p.stderr)[-1200:]}
+            site = cli.panic_site(p.stderr)
+            if p.timed_out:
+                raise Inconclusive("watchdog")
+            if site:
+                ctx.violation("panic@%s" % site, "%s: crash" % desc, case)
+            elif p.cpu_exceeded:
+                ctx.violation("hang", "%s: loading does not terminate" % desc, case)
+            elif both and p.rc != 1:
+                rel = "root-and-below" if 0 in (a, b) else ("one-below-the-other" if (b in reach(adj, a) or a in reach(adj, b)) else "separate-branches")
+                ctx.violation("accepted:conflict:%s" % rel, "%s: a namespace claimed by two reachable directories must be an error, got rc=%s" % (desc, p.rc), case)
+            elif not both and p.rc != 0 and longest_path(adj) < LIMIT:
+                ctx.violation("rejected-valid-graph:unreachable-claimant", "%s: only one of the two is reachable from the root, yet the package is rejected: %s" % (desc, cli.clean(p.stderr)[:300]), case)
+            else:
+                shutil.rmtree(base, ignore_errors=True)
+
+    pmap(one, jobs)
 
 
 def special(ctx, home):
